@@ -50,7 +50,13 @@ class AllocRule(sym.Rule):
                 return rs
             for rec in rs:
                 if ev.field == 0 and ev.val == rec[0]:
-                    return (rs - {rec}) | {rec[:4] + (obj_of(ev.addr), rec[5], rec[6])}
+                    o = obj_of(ev.addr)
+                    if rec[4] is None and rec[5] is not None and rec[5] == o \
+                            and not (f.name in self.ctor_ctx and o == ((('arg', 0), 1),)):
+                        # the capacity word was written first (the order of the two stores is free)
+                        self._ok(f, rec, 'committed')
+                        return rs - {rec}
+                    return (rs - {rec}) | {rec[:4] + (o, rec[5], rec[6])}
                 if ev.field == 1 and ev.val == rec[1] and rec[4] is not None \
                         and obj_of(ev.addr) == rec[4]:
                     if not (f.name in self.ctor_ctx and rec[4] == ((('arg', 0), 1),)):
@@ -65,6 +71,13 @@ class AllocRule(sym.Rule):
                     roots = [a for a, c in ev.addr[2]]
                     if roots and all(a[0] != 'alloca' for a in roots):
                         return (rs - {rec}) | {rec[:6] + (True,)}
+            if ev.field == 1:
+                # capacity word written before the data pointer: remember the object, the pointer store
+                # (above) completes the commit
+                upd = set(rec for rec in rs if rec[4] is None and rec[5] is None and ev.val == rec[1])
+                if upd:
+                    o = obj_of(ev.addr)
+                    return (rs - upd) | set(rec[:5] + (o, rec[6]) for rec in upd)
             # a committed pointer field overwritten by something else = lost (handled at exit by
             # checking that the field still holds p)
             return rs
